@@ -140,6 +140,9 @@ class NumpyModel:
         out = out.w(sym=self.sym_binop(o, l, r))
         if is_arr:
             out = out.w(store='fresh', fresh=True)
+        if o == '/' and r.red is not None and r.red[0] in ('sum', 'max', 'amax') and r.red[1] is not None:
+            same = r.red[1] == l.only(*[k for k in r.red[1].f]) or r.red[1] == l
+            out = out.w(norm=(r.red[0], bool(same)))
         if l.imgcorr is not None or r.imgcorr is not None:
             out = self.apply_imgcorr(interp, o, l, r, node, out)
         if l.taint or r.taint:
@@ -291,6 +294,9 @@ class NumpyModel:
                 return gl
             if gr is not None and gr[0] in ('DIST', 'DIST2', 'CARTSQ', 'ENERGY') and gl is None:
                 return gr
+            if gl is not None and gr is not None and {gl[0], gr[0]} == {'CARTSQ', 'DIST2'}:
+                interp.emit('sq_mix', node, left=gl, right=gr)
+                return None
             if gl is not None and gr is not None and {gl[0], gr[0]} & {'FRAC', 'FDIFF'} and {gl[0], gr[0]} & {'CART', 'DIST'}:
                 interp.emit('frac_cart_mix', node, left=gl, right=gr)
             return None
@@ -614,8 +620,10 @@ class NumpyModel:
                 new = base.w(geo=('FRAC', 'W'))
                 self.rebind(interp, st, frame, tv, new)
                 return
-            if aug and name is not None:
-                pass
+            if base.alloc in ('zeros', 'zeros_like', 'empty', 'full') and value is not None and not aug:
+                vm = mono_of(value)
+                new = base.w(filled_from=value, filled_at=idx, mono=vm if vm is not None else base.mono)
+                self.rebind(interp, st, frame, tv, new)
             return
         if base.ty == 'dict' and name is not None:
             kw = dict(base.kw or {})
